@@ -38,7 +38,7 @@ def reject_witnesses():
     return {
         # spec 8.2: an inner scope may shadow an outer variable -- also at another type
         'reject:shadow-other-type': (F1 + 'fn main() -> int {\n    let v5: int = 4\n    if true {\n        let v5: bool = true\n        (println v5)\n    }\n'
-                                     '    (println (+ v5 1))\n    return 0\n}\nshadow main { assert true }\n'),
+                                     '    let v6: int = (+ v5 1)\n    (println v6)\n    return 0\n}\nshadow main { assert true }\n'),
     }
 
 
